@@ -39,6 +39,9 @@ type c10Spec struct {
 	VecOp   string    `json:"vec_op,omitempty"`
 	Without bool      `json:"without,omitempty"`
 	Labels  []string  `json:"labels,omitempty"`
+	// Wrap puts the whole query inside an operator that must not change which series
+	// exist nor their values: sort, sort_desc, or topk/bottomk with a k above any series count.
+	Wrap string `json:"wrap,omitempty"`
 }
 
 // c10Outer is the outer vector aggregation of a nested query.
@@ -49,6 +52,14 @@ type c10Outer struct {
 }
 
 func (s c10Spec) Query() string {
+	switch w := s.Wrap; w {
+	case "sort", "sort_desc":
+		s.Wrap = ""
+		return w + "(" + s.Query() + ")"
+	case "topk", "bottomk":
+		s.Wrap = ""
+		return w + "(100000, " + s.Query() + ")"
+	}
 	r := durText(s.RangeNs)
 	s.Sel += s.Pipe
 	if s.SelB != "" {
@@ -233,6 +244,9 @@ func (propC10) Gen(r *Rng, run uint64, tier string) *Plan {
 			}
 			qs.Outer = o
 		}
+	}
+	if qs.Kind != "binop" && r.Sub("wrap").Bool(0.12) {
+		qs.Wrap = Pick(r.Sub("wrap-op"), []string{"sort", "sort_desc", "topk", "bottomk"})
 	}
 	p.Query = qs.Query()
 	p.Tags["spec"] = mustJSON(qs)
@@ -670,6 +684,7 @@ func (propC10) Check(t *testing.T, p *Plan, st *Stats) *Violation {
 				st.ProbeIf(spec.Pipe != "", "labels_derived_from_line")
 				st.ProbeIf(p.Tags["near_epoch"] == "1", "windows_begin_before_the_epoch")
 				st.ProbeIf(spec.Outer != nil, "nested_vector_aggregation")
+				st.ProbeIf(spec.Wrap != "", "wrapped_in_"+spec.Wrap)
 				st.ProbeIf(spec.PipeB != "", "typed_vs_string_json_operands")
 				st.Signature(fmt.Sprintf("%s%s|%s|%v|%v|inst=%s|series=%d|ents=%d", spec.Kind, spec.BinOp, spec.VecOp, spec.Without, lbls, p.Tags["instant"], nExp, nEnts))
 			}
